@@ -1,6 +1,6 @@
 (* C14 - proofs about the nil/bounds-aware cores (Crash/*.v). *)
 From Coq Require Import List ZArith Bool Lia.
-From Verif Require Import Crash.Result Num.Amount Crash.ScenarioNotes Crash.ItemPrice Crash.HeaderValidate.
+From Verif Require Import Crash.Result Num.Amount Crash.ScenarioNotes Crash.ItemPrice Crash.HeaderValidate Crash.WrapError.
 Import ListNotations.
 
 Lemma bind_np {A B E} (r : result A E) (k : A -> result B E) :
@@ -181,7 +181,7 @@ Theorem header_guarded_total signed h : validate_header true signed h <> Panic.
 Proof.
   unfold validate_header.
   assert (is_panic (stamps_field true signed (h_stamps h)) = false) as ->.
-  { unfold stamps_field. destruct (_ && _); [reflexivity|].
+  { unfold stamps_field. destruct (if signed then _ else _); [reflexivity|].
     pose proof (dup_stamps_np (h_stamps h) [] (Forall_nil _)) as H.
     destruct (dup_stamps true (h_stamps h) []); try congruence; cbn; auto.
     destruct (forallb _ _); reflexivity. }
@@ -218,3 +218,40 @@ Proof.
   rewrite (dup_stamps_same _ [] Hs). destruct (h_links h) eqn:E; [reflexivity|].
   rewrite <- E in *. rewrite (dup_links_same _ [] Hl). reflexivity.
 Qed.
+
+(* ---------------- wrapError ---------------- *)
+
+Theorem wrap_error_total_proof e :
+  top_documented e -> exists k c, wrap_error (Some e) = Some (EGobl k c) /\ documented k = true.
+Proof.
+  intros H. destruct e; cbn in *; eauto.
+  destruct (is_unknown_schema e); cbn; eauto.
+Qed.
+
+Theorem wrap_error_nil_proof : wrap_error None = None.
+Proof. reflexivity. Qed.
+
+Theorem wrap_error_idem e : wrap_error (wrap_error e) = wrap_error e.
+Proof.
+  destruct e as [e|]; [|reflexivity]. destruct e; cbn; auto.
+  destruct (is_unknown_schema e); reflexivity.
+Qed.
+
+Theorem verify_plain_error :
+  exists n errs e, envelope_verify false n errs = Some e /\ is_gobl e = false.
+Proof. exists 0%nat, [], (EPlain 1). split; reflexivity. Qed.
+
+Theorem verify_structured n errs e :
+  envelope_verify true n errs = Some e -> is_gobl e = true.
+Proof.
+  unfold envelope_verify. destruct n; [intros H; inversion H; reflexivity|].
+  destruct errs; [discriminate|]. intros H; inversion H; reflexivity.
+Qed.
+
+Theorem verify_repair_conservative n errs : n <> 0%nat ->
+  envelope_verify true n errs = envelope_verify false n errs.
+Proof. destruct n; [congruence|reflexivity]. Qed.
+
+Theorem cli_key_documented code e :
+  top_documented e -> match ce_key (cli_wrap code e) with Some k => documented k = true | None => is_gobl e = false end.
+Proof. destruct e; cbn; auto. Qed.
